@@ -884,6 +884,18 @@ def gen_shipped(repo) -> str:
     w("/-- last line each bootstrap sends, `io`/`execmodel` resolved through the lines before it -/")
     w("def bootstrapTails : List Tail := " + _l(a["tails"], lambda t: "{ kind := %s, callee := %s, io := %s, idTemplate := %s, execmodel := %s, shippedModule := %s, importedFrom := %s }" % (
         _s(t["kind"]), _s(t["callee"]), _s(t["io"]), _s(t["idTemplate"]), _s(t["execmodel"]), _s(t["shippedModule"]), _s(t["importedFrom"]))))
+    # the transmitted source is one repr()'d line that the child decodes with its locale encoding (sys.stdin.readline()):
+    # it survives every locale only while it is pure ASCII
+    non_ascii = []
+    for rel in ("gateway_base.py", "gateway_io.py", "gateway_socket.py", "rsync_remote.py", os.path.join("script", "socketserver.py")):
+        try:
+            text = _read(repo, rel)
+        except OSError:
+            continue
+        if not text.isascii():
+            non_ascii.append(rel)
+    w("/-- shipped source files that contain a non-ASCII character -/")
+    w("def nonAsciiShipped : List String := " + _l(non_ascii))
     w("def popenBootstrapLine : String := " + _s(a["bootline"]))
     w("def channelexecName : String := " + _s(a["channelexecName"]))
     w("")
